@@ -1,4 +1,8 @@
 import PrioModel.Flp
+import PrioProofs.FlpCircuit
+import PrioProofs.FlpLinear
+import PrioProofs.FlpComplete
+import PrioProofs.FlpSound
 import Mathlib.Algebra.Field.Basic
 import Mathlib.Tactic.Ring
 import Mathlib.Tactic.Linarith
@@ -167,18 +171,7 @@ end lengths
 
 /-! ## completeness of the circuits on valid inputs (plain gadgets) -/
 
-instance : LawfulMonad Res := LawfulMonad.mk'
-  (id_map := by intro α x; cases x <;> rfl)
-  (pure_bind := by intro α β x f; rfl)
-  (bind_assoc := by intro α β γ x f g; cases x <;> rfl)
-
-theorem mapM_ok {α β : Type} (f : α → Res β) (g : α → β) (l : List α) (h : ∀ x ∈ l, f x = .ok (g x)) :
-    l.mapM f = .ok (l.map g) := by
-  induction l with
-  | nil => rfl
-  | cons x xs ih =>
-    rw [List.mapM_cons, h x (by simp), ih (fun y hy => h y (by simp [hy]))]
-    rfl
+/- `LawfulMonad Res` and `mapM_ok` are in `PrioProofs/FlpCircuit.lean`. -/
 
 section circuits
 variable {F : Type} [Field F] [BEq F] [LawfulBEq F]
@@ -228,25 +221,83 @@ theorem sum_complete (C : FieldCtx F) (h1 : C.ofNat 1 = 1) (bits : Nat) (input :
 
 end circuits
 
-/-! ## stated, not yet proved -/
+/-! ## share linearity of `query` (proved in `PrioProofs/FlpLinear.lean`) -/
 
-/-- share linearity of `query` (full strength) -/
-def query_share_linear_statement : Prop :=
-  ∀ (F : Type) [Field F] [BEq F] [LawfulBEq F] (C : FieldCtx F) (t : TypeSpec) (inputs proofs : List (List F))
-    (qr jr : List F) (whole : List F),
-    inputs.length = proofs.length → inputs ≠ [] →
-    (C.ofNat inputs.length : F) ≠ 0 →
-    query C t (inputs.foldl (List.zipWith (· + ·)) (List.replicate t.inputLen 0))
-        (proofs.foldl (List.zipWith (· + ·)) (List.replicate t.proofLen 0)) qr jr 1 = .ok whole →
+/-- **`query` is linear over additive shares.**  For every field, every type, every number of shares
+    `n` that is invertible in the field, every query and joint randomness: if the query on the sums of
+    the input shares and of the proof shares (with `num_shares = 1`) yields the verifier `whole`, then
+    every aggregator's query on its own shares (with `num_shares = n`) succeeds, and the entrywise sum
+    of their verifier shares is `whole`.  (Each share has the declared length — the decoder enforces
+    it — and `C.ofNat` is the canonical map ℕ → F.) -/
+theorem query_share_linear {F : Type} [Field F] [BEq F] [LawfulBEq F] (C : FieldCtx F)
+    (hC : ∀ n, C.ofNat n = (n : F)) (t : TypeSpec) (inputs proofs : List (List F)) (qr jr whole : List F)
+    (hlen : inputs.length = proofs.length) (hne : inputs ≠ [])
+    (hin : ∀ x ∈ inputs, x.length = t.inputLen) (hpr : ∀ x ∈ proofs, x.length = t.proofLen)
+    (hns : ((inputs.length : Nat) : F) ≠ 0)
+    (hq : query C t (vsum t.inputLen inputs) (vsum t.proofLen proofs) qr jr 1 = .ok whole) :
     ∃ vs : List (List F), vs.length = inputs.length ∧
-      (∀ i (h : i < vs.length), ∃ hi hp, query C t (inputs[i]'hi) (proofs[i]'hp) qr jr inputs.length = .ok (vs[i]'h)) ∧
-      vs.foldl (List.zipWith (· + ·)) (List.replicate t.verifierLen 0) = whole
+      (∀ i (hi : i < inputs.length) (hp : i < proofs.length) (h : i < vs.length),
+          query C t (inputs[i]) (proofs[i]) qr jr inputs.length = .ok (vs[i])) ∧
+      vsum t.verifierLen vs = whole :=
+  Prio.Flp.query_share_linear C hC t inputs proofs qr jr whole hlen hne hin hpr hns hq
 
-/-- completeness of the proof system (full strength): a proof generated for an input satisfying the
-    circuit is accepted whenever `query` does not refuse the randomness -/
-def flp_complete_statement : Prop :=
-  ∀ (F : Type) [Field F] [BEq F] [LawfulBEq F] (C : FieldCtx F) (t : TypeSpec) (input pr qr jr proof v : List F),
-    (∀ o, valid C t input jr 1 = .ok o → ∀ x ∈ o, x = 0) →
-    prove C t input pr jr = .ok proof → query C t input proof qr jr 1 = .ok v → Prio.Flp.decide C t v = .ok true
+/-- non-vacuity: two shares of Count over ℚ meet the hypotheses' shape (lengths, invertible count) -/
+example : ([[1], [0]] : List (List ℚ)).length = ([[0, 0, 0, 0, 0], [0, 0, 0, 0, 0]] : List (List ℚ)).length ∧
+    (∀ x ∈ ([[1], [0]] : List (List ℚ)), x.length = TypeSpec.count.inputLen) ∧
+    (∀ x ∈ ([[0, 0, 0, 0, 0], [0, 0, 0, 0, 0]] : List (List ℚ)), x.length = TypeSpec.count.proofLen) ∧
+    ((2 : Nat) : ℚ) ≠ 0 := by
+  refine ⟨rfl, ?_, ?_, by norm_num⟩ <;> simp [TypeSpec.inputLen, TypeSpec.proofLen]
+
+/-! ## completeness of the proof system (proved in `PrioProofs/FlpComplete.lean`) -/
+
+/-- **completeness.**  For every field, every context the Rust code instantiates (`CtxOk`: the tabulated
+    roots form a root chain, `half = 1/2`, `ofNat` canonical, `2 ≠ 0`), every type that makes at least one
+    gadget call, every input accepted by the validity circuit (all circuit outputs zero), every prover,
+    joint and query randomness: if `prove` produced a proof and `query` did not refuse the query randomness,
+    `decide` accepts.  (Through: the recorded wire values interpolate to the wire polynomials; the gadget
+    polynomial of the proof is the gadget applied to them, also after being cut to `2p-1` values and
+    re-extended by the verifier; the verifier reads the true gadget outputs off it at the wire nodes; the
+    Lagrange evaluations at `r` satisfy the gadget identity as a polynomial identity.) -/
+theorem flp_complete {F : Type} [Field F] [BEq F] [LawfulBEq F] (C : FieldCtx F) (ω : Nat → F) (hC : CtxOk C ω)
+    (t : TypeSpec) (ht : t.WellFormed)
+    (input pr qr jr proof v o : List F)
+    (hvalid : valid C t input jr 1 = .ok o) (hzero : ∀ x ∈ o, x = 0)
+    (hprove : prove C t input pr jr = .ok proof)
+    (hquery : query C t input proof qr jr 1 = .ok v) :
+    Prio.Flp.decide C t v = .ok true :=
+  Prio.Flp.flp_complete C ω hC t ht input pr qr jr proof v o hvalid hzero hprove hquery
+
+/-! ## soundness of the proof system as a counting theorem (proved in `PrioProofs/FlpSound.lean`) -/
+
+/-- **the gadget test.**  Whatever proof the prover sends: either its gadget polynomial is the honest one — and
+    then every accepting query saw the true circuit output `o` and a zero check value — or all accepting
+    queries have their evaluation point in a fixed set of at most `2(p-1)` points (the roots of the non-zero
+    difference polynomial `G(W₁,…,W_a) − GP`, `p` the wire-polynomial length) -/
+theorem flp_gadget_dichotomy {F : Type} [Field F] [BEq F] [Fintype F] [LawfulBEq F] {ω : Nat → F} (C : FieldCtx F)
+    (hC : CtxOk C ω) (t : TypeSpec) (ht : t.WellFormed)
+    (input jr proof o : List F) (hvalid : valid C t input jr 1 = .ok o) :
+    (∀ qr v, query C t input proof qr jr 1 = .ok v → Prio.Flp.decide C t v = .ok true →
+      verifierOutput C t input proof jr = .ok o ∧ checkOf o (qrValidityOf t qr) = 0) ∨
+    (∃ S : Finset F, S.card ≤ 2 * (wirePolyLen t.gadgetCalls - 1) ∧
+      ∀ qr v, query C t input proof qr jr 1 = .ok v → Prio.Flp.decide C t v = .ok true → qrPointOf t qr ∈ S) :=
+  Prio.Flp.flp_gadget_dichotomy C hC t ht input jr proof o hvalid
+
+/-- **soundness.**  For a finite field, an input whose validity-circuit output `o` (under the joint randomness
+    `jr`) is not all zero, and ANY proof: the number of query-randomness vectors for which `query` succeeds and
+    `decide` accepts is at most `(2(p-1) + 1)·|F|^(queryRandLen-1)` — acceptance probability at most
+    `(2(p-1)+1)/|F|` over uniform query randomness -/
+theorem flp_soundness {F : Type} [Field F] [BEq F] [Fintype F] [LawfulBEq F] {ω : Nat → F} (C : FieldCtx F)
+    (hC : CtxOk C ω) (t : TypeSpec) (ht : t.WellFormed)
+    (input jr o : List F) (hvalid : valid C t input jr 1 = .ok o) (hnz : ∃ x ∈ o, x ≠ 0) (proof : List F) :
+    open Classical in
+    (Finset.univ.filter fun qr : Fin t.queryRandLen → F =>
+      ∃ v, query C t input proof (List.ofFn qr) jr 1 = .ok v ∧ Prio.Flp.decide C t v = .ok true).card ≤
+      (2 * (wirePolyLen t.gadgetCalls - 1) + 1) * Fintype.card F ^ (t.queryRandLen - 1) :=
+  Prio.Flp.flp_soundness C hC t ht input jr o hvalid hnz proof
+
+/-- non-vacuity of the side condition: every deployed shape makes at least one gadget call -/
+example : TypeSpec.count.WellFormed ∧ (TypeSpec.sum 3).WellFormed ∧ (TypeSpec.histogram 5 2).WellFormed ∧
+    (TypeSpec.multihot 4 3 2 3).WellFormed ∧ (TypeSpec.sumVec 3 2 1 2).WellFormed ∧
+    (TypeSpec.l1BoundSum 3 2 1 2).WellFormed := by decide
 
 end Props.C05
